@@ -98,7 +98,15 @@ class _PooledTransport:
     pool-specific attributes (``shm``, ``_stream_opened``).
     """
 
-    __slots__ = ("_inner", "_last_stream_session", "_pool", "_returned", "_shm", "_stream_opened")
+    __slots__ = (
+        "_call_in_flight",
+        "_inner",
+        "_last_stream_session",
+        "_pool",
+        "_returned",
+        "_shm",
+        "_stream_opened",
+    )
 
     def __init__(self, inner: SubprocessTransport, pool: WorkerPool, shm: ShmSegment | None = None) -> None:
         """Initialize wrapping *inner* transport, owned by *pool*."""
@@ -108,6 +116,9 @@ class _PooledTransport:
         self._shm = shm
         self._stream_opened = False
         self._last_stream_session: StreamSession | None = None
+        # Set by the client while a request is outstanding; still set on close()
+        # when the response was not read to its end (e.g. on_log raised).
+        self._call_in_flight = False
 
     @property
     def reader(self) -> IOBase:
@@ -135,9 +146,16 @@ class _PooledTransport:
             return
         self._returned = True
         self._shm = None
-        # A stream is "abandoned" if it was opened but not cleanly closed
-        stream_abandoned = self._stream_opened and (
-            self._last_stream_session is None or not self._last_stream_session._closed
+        # The connection is not at a message boundary if a call was interrupted
+        # before its response was fully read, or a stream was opened but not
+        # cleanly closed and drained.
+        stream_abandoned = self._call_in_flight or (
+            self._stream_opened
+            and (
+                self._last_stream_session is None
+                or not self._last_stream_session._closed
+                or not self._last_stream_session._drained
+            )
         )
         self._last_stream_session = None
         try:
